@@ -67,13 +67,44 @@ func ruleTB9a(pkg, fn string, floor int) Rule {
 			}
 			info := f.Info()
 			produced := map[string]bool{}
+			// the operator variable: a named result, or a local that is returned or passed to emit
+			opVars := map[types.Object]bool{}
+			if f.Type.Results != nil {
+				for _, fld := range f.Type.Results.List {
+					for _, nm := range fld.Names {
+						opVars[info.Defs[nm]] = true
+					}
+				}
+			}
+			emitFn := c.fn(pkg + ".(*lexer).emit")
+			f.OwnNodes(func(n ast.Node) bool {
+				switch n := n.(type) {
+				case *ast.ReturnStmt:
+					for _, r := range n.Results {
+						if id, ok := ast.Unparen(r).(*ast.Ident); ok {
+							if v, ok := info.Uses[id].(*types.Var); ok {
+								opVars[v] = true
+							}
+						}
+					}
+				case *ast.CallExpr:
+					if fo := core.StaticCallee(info, n); fo != nil && c.P.FuncOf(fo) == emitFn && len(n.Args) == 1 {
+						if id, ok := ast.Unparen(n.Args[0]).(*ast.Ident); ok {
+							if v, ok := info.Uses[id].(*types.Var); ok {
+								opVars[v] = true
+							}
+						}
+					}
+				}
+				return true
+			})
 			f.OwnNodes(func(n ast.Node) bool {
 				as, ok := n.(*ast.AssignStmt)
 				if !ok || as.Tok != token.ASSIGN || len(as.Lhs) != 1 || len(as.Rhs) != 1 {
 					return true
 				}
 				id, ok := as.Lhs[0].(*ast.Ident)
-				if !ok || id.Name != "op" {
+				if !ok || !opVars[info.Uses[id]] {
 					return true
 				}
 				path, multi := matchedPath(c.P, info, as)
